@@ -124,6 +124,8 @@ def judge : Judge := liftJudge fun input obs => do
     ++ (if optInt input "pullMs" ≥ 1000 then ["watch-driven"] else ["ticker+watch"])
     ++ (if optInt obs "convergeMs" > 5000 then ["late-convergence"] else [])
     ++ (if fault != "" then ["fault:" ++ fault ++ (if faultDone then ":done" else ":failed")] else [])
+    ++ (if optInt input "holdMs" > 0 then [if obsData.length ≥ 12 then "consumer-away:buffer-full" else "consumer-away:buffer-not-full"] else [])
+    ++ (if fault == "compact" then [if optBool obs "cancelSeen" then "watch-cancel-seen" else "watch-cancel-not-seen"] else [])
     ++ (if obsData.length ≥ 10 then ["snaps>=10"] else if obsData.isEmpty then ["snaps=0"] else ["snaps<10"])
   pure { agree := agree, spec := spec,
          expected := Json.mkObj [("indices", Json.arr (ck.indices.map (fun (i : Nat) => Json.num i)).toArray),
